@@ -65,10 +65,13 @@ def vget(st, l):
 _UNTRACKED = set()     # locals of the function under analysis whose address is taken mutably (set per function by Proto.analyse)
 
 
+PAYLOAD = 1000000      # V key of "the single field of the enum value held in local l" is l + PAYLOAD (Ok(x) / Some(x) / Err(x) wrappers of decisions)
+
+
 def vset(st, l, val):
     if l in _UNTRACKED and val is not None and val[0] not in ('qs',):
         val = None
-    items = [(k, v) for k, v in st.V if k != l]
+    items = [(k, v) for k, v in st.V if k != l and (l >= PAYLOAD or k != l + PAYLOAD)]
     if val is not None:
         items.append((l, val))
         items.sort(key=lambda kv: kv[0])
@@ -583,6 +586,14 @@ class Proto:
         return st._replace(S=None, P=P, len0='?', own='?', S0=None, pan=pan, pre=pre, acq0=acq0, sched=sched, resched=resched, pushed=0)
 
     def _is_local_enum(self, fn, l):
+        if l >= PAYLOAD:
+            # payload of a wrapper (Result<Decision, _>, Option<Decision>): an in-crate enum among the wrapper's type arguments
+            import re
+            for name in re.findall(r'[A-Za-z_][A-Za-z0-9_]*(?:::[A-Za-z_][A-Za-z0-9_]*)+', fn.local_ty(l - PAYLOAD)):
+                a = self.facts.adts.get(name)
+                if a and a['kind'] == 'Enum' and name != ty_head(fn.local_ty(l - PAYLOAD)):
+                    return True
+            return False
         a = self.facts.adts.get(ty_head(fn.local_ty(l)))
         return bool(a) and a['kind'] == 'Enum'
 
@@ -598,6 +609,16 @@ class Proto:
                 return e[1]
         return None
 
+    def _payload_key(self, fn, pl):
+        """For a place `(x as Variant).0` (through derefs / single-def reference temporaries): the V key of x's payload."""
+        p = [x for x in pl['p'] if x['k'] != 'deref']
+        if len(p) == 2 and p[0]['k'] == 'downcast' and p[1]['k'] == 'field' and p[1].get('i', 0) == 0:
+            base = {'l': pl['l'], 'p': [x for x in pl['p'] if x['k'] == 'deref'][:1] if pl['p'] and pl['p'][0]['k'] == 'deref' else []}
+            r = self._root_local(fn, base)
+            if r is not None and r not in _UNTRACKED:
+                return r + PAYLOAD
+        return None
+
     def _operand_val(self, fn, st, o):
         k = o['k']
         if k == 'const':
@@ -607,6 +628,9 @@ class Proto:
                 return ('int', o['val'])
             return None
         pl = o['pl']
+        pk = self._payload_key(fn, pl)
+        if pk is not None:
+            return vget(st, pk)
         if self.is_state_place(pl):
             if st.S is None:
                 return ('qs', self.ALL, False)
@@ -713,7 +737,15 @@ class Proto:
         if rv['k'] == 'agg' and rv.get('adt') == ACTIVE_QUEUE and record:
             self.events[('guard_new', self._evn(fn), '')].add(st.T)
         val = self._rvalue_val(fn, st, rv, bb, i, record)
-        return [vset(st, l, val)]
+        payload = None
+        if rv['k'] == 'agg' and rv['ak'] == 'adt' and len(rv.get('ops', [])) == 1:
+            payload = self._operand_val(fn, st, rv['ops'][0])
+        elif rv['k'] == 'use' and rv['op']['k'] in ('copy', 'move') and not rv['op']['pl']['p']:
+            payload = vget(st, rv['op']['pl']['l'] + PAYLOAD)
+        st = vset(st, l, val)
+        if payload is not None and payload[0] in ('enum', 'bool') and l not in _UNTRACKED:
+            st = vset(st, l + PAYLOAD, payload)
+        return [st]
 
     def _rvalue_val(self, fn, st, rv, bb, i, record):
         k = rv['k']
@@ -729,6 +761,9 @@ class Proto:
             l = self._root_local(fn, pl)
             if l is not None:
                 return ('disc', l)
+            pk = self._payload_key(fn, pl)
+            if pk is not None:
+                return ('disc', pk, pl.get('ty', ''))
             return None
         if k == 'agg':
             if rv['ak'] == 'adt':
@@ -895,7 +930,7 @@ class Proto:
         if kind == 'disc':
             l = v[1]
             lv = vget(st, l)
-            ty = fn.local_ty(l)
+            ty = v[2] if len(v) > 2 else fn.local_ty(l)
             for val, tgt in edges:
                 if val == 'otherwise':
                     names = set(self._adt_variant_by_discr(ty, x) for x in listed)
